@@ -41,7 +41,10 @@ class ErrorExtraction(object):
             if klass in self.registry:
                 extractor = self.registry[klass]
                 try:
-                    return extractor(exception)
+                    # A copy: callers add their own fields to the result, and
+                    # the extractor may return a dictionary that belongs to
+                    # the application (e.g. the exception's __dict__).
+                    return dict(extractor(exception))
                 except:
                     from ._traceback import write_traceback
 
